@@ -74,6 +74,40 @@ CHECKS = {
                   "datetime.time as modelled (validated by the fault streams), scripted reader.",
              tech="Lean 4 proof (totality of parsers for all byte strings) + fault enumeration correspondence + Spec judge",
              ref="§7 C09"),
+ "C05": dict(text="Lean theorems type1_decodes / shutter_decodes / thermo_decodes: for EVERY background, every device type of the family, "
+                  "both states and every field value in its domain (all IPv4/MAC bytes, every UTF-8 name of 1..32 bytes incl. a proved "
+                  "UTF-8 encode/decode round trip for all scalar values, power, times, position, direction, mode, temperatures, fan, "
+                  "swing, remote id) the model of _parse_device_from_datagram yields exactly the Spec's expected device (OFF => zeros); "
+                  "amps = round(w/220,1) simulated exactly and proved within 0.05 A for all 65,536 power values (kernel evaluation). "
+                  "The model is compared with the real parser on reference-encoded broadcasts and the shipped captures, also through a running bridge.",
+             note="Trusted: Lean kernel (propext, Classical.choice, Quot.sound), generated DeviceType table, CPython decode/int/inet_ntoa/"
+                  "round as modelled (validated by correspondence; watts_to_amps exhaustively in the thorough tier).",
+             tech="Lean 4 proof (field windows over arbitrary backgrounds, UTF-8 round trip, exact float simulation) + correspondence",
+             ref="§7 C05"),
+ "C06": dict(text="Lean theorems for EVERY byte string: the gate equals 'starts fe f0 and length in {165,168,159}' (gate_iff); anything "
+                  "else yields `ignored` (no device, warning or exception); a gated frame with a model code outside the generated "
+                  "table yields the unknown-device warning and never raises (unknown_model), known codes = the 9 generated ones. "
+                  "Correspondence: every length 0..400, captures truncated/extended, model codes inside valid frames of all three shapes.",
+             note="Trusted: Lean kernel (propext, Classical.choice, Quot.sound), generated tables, warnings/exception observation in the harness.",
+             tech="Lean 4 proof for all byte strings + correspondence (all 65,536 model codes x 3 shapes in the thorough tier)",
+             ref="§7 C06"),
+ "C07": dict(text="PARTIAL. Lean theorems about the delivery function of a running bridge for EVERY datagram sequence on any ports: "
+                  "exactly one delivery per valid broadcast (exactly_once), bad datagrams are transparent (bad_is_transparent), arrival "
+                  "order overall and per port (in_order, per_port_order), independence from callback failures, each delivery is the "
+                  "decoded device. The runtime facts the model assumes (asyncio isolates exceptions raised in datagram_received; loopback "
+                  "UDP keeps order) are exercised on a REAL running bridge with 1..4 ports, cross-port interleavings and raising "
+                  "callbacks, compared delivery by delivery with the model and judged against the Spec's expected devices.",
+             note="Trusted: Lean kernel, assumption loopIsolates (asyncio) and UDP loopback ordering (observed, not proved).",
+             tech="Lean 4 proof over all sequences (induction) + correspondence on a real UDP bridge with delivery barriers",
+             ref="§7 C07"),
+ "C08": dict(text="Lean theorems state1_decodes / shutter_decodes / thermo_decodes / login_session: for EVERY background of any sufficient "
+                  "length and every field value in its domain the model of the response classes returns exactly what the Spec's "
+                  "reference encoder wrote (HH:MM:SS times, watts, amps, position, direction, mode, fan, swing, tenths, target, remote "
+                  "id, session bytes). Correspondence: real response classes on reference-encoded replies + the shipped replies "
+                  "re-encoded by the Spec encoder; all power values in the thorough tier.",
+             note="Trusted: Lean kernel (propext, Classical.choice, Quot.sound), generated enum tables, CPython int()/decode/round as modelled.",
+             tech="Lean 4 proof (field windows over arbitrary backgrounds) + differential correspondence + Spec expectations",
+             ref="§7 C08"),
 }
 NOT_YET = "check not built yet in this revision (work in progress; see DESIGN.md Appendix B)"
 m = {
